@@ -3,4 +3,5 @@ POSTCONDITION PostCond
 CONSTANTS
   Seed = 1
   Multi = FALSE
+  Wide = FALSE
 CHECK_DEADLOCK FALSE
